@@ -223,6 +223,7 @@ func c10Body(r *Run) {
 		}
 		return
 	}
+	anyFailFirst := false // some late handler's first Subscribe fails: whichever RunHandlers call meets it reports it
 	rig.StartAsync()
 	if secondRun == 3 {
 		go func() {
@@ -255,7 +256,7 @@ func c10Body(r *Run) {
 	for i := 0; i < extraRunHandlers; i++ {
 		go func() {
 			// (by then the router may have closed itself; what RunHandlers says on a closed router is not specified)
-			if err := rig.Router.RunHandlers(rig.ctx); err != nil && !rig.Router.IsClosed() {
+			if err := rig.Router.RunHandlers(rig.ctx); err != nil && !rig.Router.IsClosed() && !(anyFailFirst && strings.Contains(err.Error(), "scripted subscribe error")) {
 				r.Fail("C10.R2", "RunHandlers on a running router failed", "%v", err)
 			}
 		}()
@@ -264,12 +265,20 @@ func c10Body(r *Run) {
 		if !h.late {
 			continue
 		}
+		// a third of the late handlers: their first Subscribe fails (a transient error); RunHandlers reports it and a
+		// later call starts the handler after all
+		failFirst := t.Chance(1, 3)
+		if failFirst {
+			anyFailFirst = true
+			counting.FailOnce[h.topic] = true
+			r.Fault("subscribe-error")
+		}
 		add(h)
 		n := 1 + t.Int(3)
 		done := make(chan struct{}, n)
 		for i := 0; i < n; i++ {
 			go func() {
-				if err := rig.Router.RunHandlers(rig.ctx); err != nil && !rig.Router.IsClosed() {
+				if err := rig.Router.RunHandlers(rig.ctx); err != nil && !rig.Router.IsClosed() && !(anyFailFirst && strings.Contains(err.Error(), "scripted subscribe error")) {
 					r.Fail("C10.R2", "RunHandlers on a running router failed", "%v", err)
 				}
 				done <- struct{}{}
@@ -277,6 +286,12 @@ func c10Body(r *Run) {
 		}
 		for i := 0; i < n; i++ {
 			<-done
+		}
+		if failFirst && counting.Returned[h.topic] == 0 {
+			// the only call so far met the failing Subscribe: try again
+			if err := rig.Router.RunHandlers(rig.ctx); err != nil && !rig.Router.IsClosed() {
+				r.Fail("C10.R2", "RunHandlers failed again after a transient Subscribe error", "%v", err)
+			}
 		}
 		// Another, still running RunHandlers call (a racer) may be the one that starts this handler: that the handler gets
 		// its subscription exactly once is judged at the end of the run; the delivery obligation below only arises when the
